@@ -433,7 +433,13 @@ def r02_5_emission_coverage(ctx: Ctx, rule: str = "R02.5") -> None:
     for nn in ast.walk(f.node):
         if isinstance(nn, ast.Expr) and isinstance(nn.value, ast.Call) and call_attr(nn.value) in ("order_by", "offset", "limit", "where", "distinct", "select_from"):
             run.fail(rule, f"dropped:{call_attr(nn.value)}", f"the result of `{src(nn.value)[:50]}` is discarded (sqlalchemy selects are immutable, the clause is lost)", fi=f, node=nn)
-    comps = [c for c in ast.walk(f.node) if isinstance(c, ast.DictComp) and src(c.generators[0].iter) == f"{sel}.columns"]
+    def _over_columns(it: ast.expr) -> bool:
+        # `select.columns`, or a re-ordering of exactly that set
+        if src(it) == f"{sel}.columns":
+            return True
+        return isinstance(it, ast.Call) and isinstance(it.func, ast.Name) and it.func.id in ("sorted", "list", "tuple") and bool(it.args) and src(it.args[0]) == f"{sel}.columns"
+
+    comps = [c for c in ast.walk(f.node) if isinstance(c, ast.DictComp) and _over_columns(c.generators[0].iter)]
     if comps and isinstance(comps[0].value, ast.Subscript) and src(comps[0].value.slice) == src(comps[0].key) == src(comps[0].generators[0].target):
         run.ok(rule, "emit:select-list")
     else:
@@ -472,3 +478,54 @@ def r02_5_emission_coverage(ctx: Ctx, rule: str = "R02.5") -> None:
                 run.fail(rule, inst, f"to_payload's {cls_name} arm: " + "; ".join(why), fi=tp, node=p.node, details=describe(p))
         if hit == 0:
             raise AnalysisError(f"to_payload has no returning {cls_name} arm")
+
+
+def r_select_list_order(ctx: Ctx, rule: str) -> None:
+    """UNION matches columns by position; a SELECT list written in set-iteration order differs between operands."""
+    run, m = ctx.run, ctx.m
+    run.rule(
+        rule,
+        "the SELECT list is emitted in an order that is a function of the column *set* (sorted(...)), not in the "
+        "iteration order of a particular set object: two chain operands with equal columns may iterate them differently, "
+        "and UNION pairs columns by position",
+        expected_min=1,
+    )
+    from ..flow import denotes
+
+    f = m.func(SQL_ENGINE, "Engine._select_to_executable")
+    sel = [p for p in f.params if p != "self"][0]
+    seen = 0
+    reported = False
+    for i, p in enumerate(ctx.paths(f)):
+        if p.outcome != "return":
+            continue
+        for j, c in path_calls(p):
+            if call_attr(c) != "select_items" or not c.args:
+                continue
+            seen += 1
+            a0 = c.args[0]
+            base = a0.func.value if isinstance(a0, ast.Call) and call_attr(a0) == "items" and isinstance(a0.func, ast.Attribute) else a0
+            b = resolve_name(p, base.id, j) if isinstance(base, ast.Name) else base
+            inst = "select-list:order"
+            ok = False
+            what = src(b)[:80] if isinstance(b, ast.AST) else repr(b)
+            if isinstance(b, (ast.DictComp, ast.ListComp, ast.GeneratorExp)):
+                it = b.generators[0].iter
+                itb = resolve_name(p, it.id, j) if isinstance(it, ast.Name) else it
+                if isinstance(itb, ast.Call) and isinstance(itb.func, ast.Name) and itb.func.id == "sorted" and itb.args and denotes(p, itb.args[0], sel, ("columns",), j):
+                    ok = True
+                what = src(it)[:80]
+            if ok:
+                run.ok(rule, inst, {"order": what})
+            elif not reported:
+                reported = True
+                run.fail(
+                    rule,
+                    inst,
+                    f"the SELECT list is built by iterating `{what}`: for a set that is the iteration order of that particular object, so the "
+                    "operands of a UNION can list the same columns in different orders and their values end up under the wrong names",
+                    fi=f,
+                    node=c,
+                )
+    if seen == 0:
+        raise AnalysisError("_select_to_executable no longer calls select_items")
